@@ -929,6 +929,10 @@ func (r *Run) DoFile(f *FileOp) {
 		if err := os.WriteFile(full, []byte(f.Content), 0o644); err != nil {
 			harnessf("file op: %v", err)
 		}
+		// the file's mtime is recorded by ergo as evidence: take it from the
+		// simulated clock, not from the real one
+		mt := time.Unix(0, r.W.Clock.Now).UTC()
+		os.Chtimes(full, mt, mt)
 	case "dir":
 		os.MkdirAll(full, 0o755)
 	case "symlink":
